@@ -378,3 +378,21 @@ REPLAYING = False
 
 def is_known(sig: str) -> bool:
     return sig in KNOWN
+
+
+def fresh_aggregator_locks():
+    """The aggregator's module-level multiprocessing locks are inherited by every forked
+    shard worker; re-executing the module gives this process its own locks (as a separate
+    interpreter would have), so shards do not contend - or, under the cooperative scheduler,
+    deadlock - with each other."""
+    import importlib
+
+    import panoptica.panoptica_aggregator as A
+
+    from . import sched
+
+    wrapped = isinstance(getattr(A, "os", None), sched.OsProxy)
+    with quiet():
+        importlib.reload(A)
+    if wrapped:
+        sched.install()
